@@ -19,6 +19,9 @@ CHECKS = {
     'C06': ('exploration', 'runtime monitoring of Message.parse: exception-class oracle + executed-line budget (sys.monitoring LINE events) over structure-aware hostile corpora',
             'Every parse call is watched by a line-event counter that aborts it when it exceeds a linear budget (so a non-terminating parse is detected in-process) and its outcome must be a return, InvalidSyntax or UnsupportedCriticalPayload. Corpora: random bytes, all truncations, byte mutations, a grid over every length/next/more/count/critical field at every nesting level incl. two-field combinations, and the same applied to the plaintext of protected messages re-sealed with the right keys (bad padding, non-block ciphertext, IV only).',
             'line budget constants fixed a priori (600 + 20/byte + 5/declared DELETE SPI); two cipher suites; messages up to a few hundred bytes plus random ones up to 4096', '2/C06'),
+    'C08': ('exploration', 'runtime monitoring: Message-ID window automaton and header-stamping monitor fed online with every real main_loop iteration, over exhaustive small and random large deliver/duplicate/drop/late-replay schedules of authentic traffic',
+            'For every exchange kind on both roles all schedules of deliver / <=2 duplicates / <=1 drop are enumerated and executed (plus random walks with loss, duplication and late replays of datagrams recorded earlier, incl. towards rekeyed predecessors and successors). The automaton keeps its own record of executed request IDs, accepted response IDs, first reply bytes and emitted requests and flags: execution outside the window or twice, a replay not answered byte-identically from the cache, any effect of an out-of-window message, a response accepted without matching outstanding request, non-consecutive or overlapping own requests, wrong version / SPIs / flags / exchange type / length on any emitted datagram.',
+            'honest peers, datagrams copied/delayed/reordered/lost but never modified; duplicate budget 2 and drop budget 1 in the exhaustive part', '2/C08'),
     'C09': ('exploration', 'runtime monitoring of the real event loop: collision monitor + quiescence oracle over exhaustively enumerated and random message-level schedules',
             'Every ordered list of <=2 (thorough: sampled 3) local triggers on either endpoint is interleaved in every possible way with the delivery order of in-flight datagrams, each leaf re-executed through the real main_loop; plus thousands of seeded lossless/lossy walks. After every step: no exception escapes an entry point, no IkeSaStateError, no generic-exception recovery, the (state,event,state\') triple is in the allowed relation, collisions are answered per RFC 7296 2.25; after a lossless drain nobody waits and both tables agree. Held on the executions observed, nothing more.',
             'honest peers with mirror-image configurations; fake kernel and network; timers fired by making the deadline due; transition relation written by hand from the RFC (DESIGN.md appendix A)', '2/C09'),
